@@ -41,22 +41,24 @@ type Cmd struct {
 	Pct             int      `json:"pct,omitempty"`
 	Allow           []string `json:"allow,omitempty"`
 	// service/target options
-	TLS           bool   `json:"tls,omitempty"`
-	TLSRedirect   bool   `json:"tls_redirect,omitempty"`
-	CertPath      string `json:"cert,omitempty"`
-	KeyPath       string `json:"key,omitempty"`
-	ErrorPages    string `json:"error_pages,omitempty"`
-	StripPrefix   bool   `json:"strip,omitempty"`
-	HCIntervalMs  int    `json:"hc_interval,omitempty"`
-	HCTimeoutMs   int    `json:"hc_timeout,omitempty"`
-	HCPath        string `json:"hc_path,omitempty"`
-	RespTimeoutMs int    `json:"resp_timeout,omitempty"`
-	BufReq        bool   `json:"buf_req,omitempty"`
-	BufResp       bool   `json:"buf_resp,omitempty"`
-	MaxMem        int64  `json:"max_mem,omitempty"`
-	MaxReqBody    int64  `json:"max_req_body,omitempty"`
-	MaxRespBody   int64  `json:"max_resp_body,omitempty"`
-	ForwardHdrs   bool   `json:"forward_headers,omitempty"`
+	TLS           bool     `json:"tls,omitempty"`
+	TLSRedirect   bool     `json:"tls_redirect,omitempty"`
+	CertPath      string   `json:"cert,omitempty"`
+	KeyPath       string   `json:"key,omitempty"`
+	ErrorPages    string   `json:"error_pages,omitempty"`
+	StripPrefix   bool     `json:"strip,omitempty"`
+	HCIntervalMs  int      `json:"hc_interval,omitempty"`
+	HCTimeoutMs   int      `json:"hc_timeout,omitempty"`
+	HCPath        string   `json:"hc_path,omitempty"`
+	RespTimeoutMs int      `json:"resp_timeout,omitempty"`
+	BufReq        bool     `json:"buf_req,omitempty"`
+	BufResp       bool     `json:"buf_resp,omitempty"`
+	MaxMem        int64    `json:"max_mem,omitempty"`
+	MaxReqBody    int64    `json:"max_req_body,omitempty"`
+	MaxRespBody   int64    `json:"max_resp_body,omitempty"`
+	ForwardHdrs   bool     `json:"forward_headers,omitempty"`
+	LogReq        []string `json:"log_req,omitempty"`
+	LogResp       []string `json:"log_resp,omitempty"`
 	// WaitMs: virtual time the lane waits before issuing this command
 	// (0 = as soon as the controller lets it).
 	WaitMs int `json:"wait,omitempty"`
